@@ -85,6 +85,12 @@ def run(chk):
     chk.saw(swp)
     idx = {folder.try_fold(n.slice, Scope(mod), None) for n in own_nodes(swp.node) if isinstance(n, ast.Subscript)}
     chk.check(idx == {0x6041}, "R1", f"{P}:BaseNode402.statusword | object", swp.loc(), f"statusword read from objects {sorted(hex(i) for i in idx if i)}; CiA 402: 0x6041")
+    bn_init = repo.func(P, "BaseNode402.__init__", "C19.R1")
+    chk.saw(bn_init)
+    tv = [n for n in own_nodes(bn_init.node) if isinstance(n, ast.Assign) and src(n.targets[0]) == "self.tpdo_values"]
+    chk.check(len(tv) == 1 and src(tv[0].value) in ("{}", "dict()"), "R1", f"{P}:BaseNode402.__init__ | tpdo_values is a plain dict (a missing object raises KeyError)", bn_init.loc(),
+              f"{[src(t) for t in tv]}: the SDO fallback of statusword/op_mode is taken on KeyError; a mapping that invents missing entries never raises it, the statusword then reads as "
+              f"its default instead of being fetched by SDO")
     sw_rets = [n for n in own_nodes(swp.node) if isinstance(n, ast.Return) and n.value is not None]
     in_handler = {id(r) for h in own_nodes(swp.node) if isinstance(h, ast.ExceptHandler) and "KeyError" in src(h.type or ast.Constant(None)) for r in ast.walk(h) if isinstance(r, ast.Return)}
     pdo_r = [r for r in sw_rets if src(r.value).startswith("self.tpdo_values[") and id(r) not in in_handler]
@@ -188,8 +194,9 @@ def run(chk):
         chk.check(n2c.get(name) == code, "R4", f"NAME2CODE[{name!r}]", w_n, f"mode code {n2c.get(name)!r}; CiA 402: {code}")
         chk.check(c2n.get(code) == name, "R4", f"CODE2NAME[{code}]", w_c, f"code {code} is named {c2n.get(code)!r}; expected {name!r}")
         want = 0 if code == 0 else 1 << (code - 1)
-        chk.check(sup.get(name) == want, "R4", f"SUPPORTED[{name!r}]", w_s,
-                  f"support bit 0x{sup.get(name, -1):X}; object 0x6502 uses bit {code - 1} (0x{want:X}) for mode {code}")
+        chk.check(sup.get(name) == want and type(sup.get(name)) is int, "R4", f"SUPPORTED[{name!r}]", w_s,
+                  f"support bit {sup.get(name)!r}; object 0x6502 uses bit {code - 1} (0x{want:X}) for mode {code}" + (" -- a float here makes the support test raise TypeError, "
+                  "which the setter reports as 'mode not supported'" if isinstance(sup.get(name), float) else ""))
     for name, code in n2c.items():
         chk.check(c2n.get(code) == name, "R4", f"NAME2CODE/CODE2NAME inverse {name!r}", w_n, f"CODE2NAME[{code}] = {c2n.get(code)!r}")
     sp = repo.func(P, "BaseNode402.is_op_mode_supported", "C19.R4")
